@@ -54,6 +54,7 @@ type cs struct {
 	starved  map[int]bool
 	reported map[string]bool
 	regObj   ssz.HashRoot
+	lastDelta int // slot offset of the duty started last on this runner
 }
 
 func (c *cs) container() *specssv.PartialSigContainer {
@@ -155,10 +156,24 @@ func reset(run *hx.Run, kindName string, n int, dec bool) (*cs, string) {
 		return nil, "bad-kind"
 	}
 	env := rkit.NewEnv(kind, rkit.KeySet(n), 1)
-	c := &cs{run: run, env: env, kind: kind, n: n, q: int(env.Share.Quorum), f: (n - 1) / 3, badFrom: map[int]bool{},
-		starved: map[int]bool{}, reported: map[string]bool{}}
-	duty := kind.Duty(0)
-	must(env.Runner.StartNewDuty(env.Log, duty))
+	c := &cs{run: run, env: env, kind: kind, n: n, q: int(env.Share.Quorum), f: (n - 1) / 3, reported: map[string]bool{}, lastDelta: -1}
+	return c, c.begin(0, dec)
+}
+
+// begin starts the duty `delta` slots after the kind's base slot ON THIS RUNNER OBJECT (a later duty of the same runner when
+// it is not the first) and drives it into its collection phase; all per-duty oracle bookkeeping starts afresh.
+func (c *cs) begin(delta int, dec bool) string {
+	kind, env, n := c.kind, c.env, c.n
+	duty := kind.Duty(uint64(delta))
+	if err := env.Runner.StartNewDuty(env.Log, duty); err != nil {
+		if delta <= c.lastDelta {
+			return "refused" // "duty for slot … already passed"
+		}
+		panic(err)
+	}
+	c.lastDelta = delta
+	c.badFrom, c.starved = map[int]bool{}, map[int]bool{}
+	c.pre, c.decided, c.pending = false, false, nil
 	var decidedValue []byte
 	if !kind.HasConsensus() {
 		c.pre, c.decided = true, true
@@ -200,7 +215,7 @@ func reset(run *hx.Run, kindName string, n int, dec bool) (*cs, string) {
 		c.goodFrom[i] = map[int]bool{}
 	}
 	c.subCount = make([]int, len(c.roots))
-	return c, fmt.Sprintf("ok q=%d k=%d", c.q, len(c.roots))
+	return fmt.Sprintf("ok q=%d k=%d", c.q, len(c.roots))
 }
 
 // afterDecided takes the root order, message type and slot from the runner's own broadcast share message and checks that
@@ -424,7 +439,11 @@ func (c *cs) checkSubmissions() []int {
 			out = append(out, -1)
 			continue
 		}
+		// the signature must verify under the validator key over EXACTLY the object handed to the beacon node
 		root := rkit.SigningRoot(obj, s.Domain)
+		if !rkit.VerifyUnderValidator(c.env.KS, root, s.Sig[:]) {
+			c.violate("C05/invalid-signature-submitted", fmt.Sprintf("%s n=%d: signature passed to %s does not verify under the validator public key over the object it was submitted with", c.kind.Name, c.n, s.Call))
+		}
 		idx := -1
 		for i, r := range c.roots {
 			if r == root {
@@ -433,11 +452,8 @@ func (c *cs) checkSubmissions() []int {
 		}
 		out = append(out, idx)
 		if idx < 0 {
-			c.violate("C05/submission-not-over-a-decided-object", fmt.Sprintf("%s n=%d: %s submitted an object that is not part of the decided value", c.kind.Name, c.n, s.Call))
+			c.violate("C05/submission-not-over-a-decided-object", fmt.Sprintf("%s n=%d: %s submitted an object that is not a duty object of the current duty's decided value", c.kind.Name, c.n, s.Call))
 			continue
-		}
-		if !rkit.VerifyUnderValidator(c.env.KS, root, s.Sig[:]) {
-			c.violate("C05/invalid-signature-submitted", fmt.Sprintf("%s n=%d: signature passed to %s does not verify under the validator public key", c.kind.Name, c.n, s.Call))
 		}
 		c.subCount[idx]++
 		if c.subCount[idx] > 1 {
@@ -529,6 +545,20 @@ func (s *state) do(line string) {
 		s.run.Emit(op, obs)
 		s.run.Tag("kind/" + kv["kind"])
 		s.run.Tag("n/" + kv["n"])
+	case "next":
+		if s.cur == nil {
+			s.run.Emit(line, "bad-op")
+			return
+		}
+		d, _ := strconv.Atoi(kv["d"])
+		if d < 0 || d > 4096 {
+			s.run.Emit(line, "bad-op")
+			return
+		}
+		op := fmt.Sprintf("next d=%d dec=%s", d, map[bool]string{true: "1", false: "0"}[kv["dec"] != "0"])
+		s.cur.lines = append(s.cur.lines, op)
+		s.run.Emit(op, s.cur.begin(d, kv["dec"] != "0"))
+		s.run.Tag("op/next-duty")
 	case "decide":
 		if s.cur == nil {
 			s.run.Emit(line, "bad-op")
